@@ -17,7 +17,10 @@ TRUSTED = [
 ]
 ASSUME = [
     "schemas well formed as for C06; universe as for C06 (tables, columns, unique constraints, indexes, foreign keys: all five filter "
-    "types) plus UNNAMED foreign keys (name None); unnamed unique constraints are not modelled",
+    "types) plus UNNAMED foreign keys and UNNAMED unique constraints (name None: the unnamed_metadata_uniques / conn_uniques_by_sig "
+    "branch), tables in ATTACHed databases seen as schemas with include_schemas=True (schema name filter, schema-qualified parent "
+    "names); CHECK constraints and expression indexes decorate some schemas and must stay invisible",
+    "C20_conservative assumes the metadata has no unnamed unique constraint; outside, the decider and the exact correspondence speak",
     "acc (the objects 'neither filter rejects'): the operation's own names are accepted, the include_object calls the unfiltered "
     "comparison makes for its table and object say yes, and - foreign keys being matched by signature - no reflected foreign key with "
     "the signature of an added key is name-rejected",
@@ -54,11 +57,13 @@ def _refs(schemas):
                 refs.add(("u" if k[0] == "uq" else "i", t["name"], k[1]))
             for f in t.get("fks", []):
                 refs.add(("f", t["name"], f[0]) if S.fk_named(f) else ("g", t["name"]))
+            if t.get("uuqs"):
+                refs.add(("v", t["name"]))
     return sorted(refs)
 
 
-def gen_filter(rnd, A, B):
-    refs = _refs([A, B])
+def gen_filter(rnd, A, B, attached=()):
+    refs = _refs([A, B]) + [("S", i) for i in attached]
     mode = rnd.choice(["object", "name", "both", "both"])
     pobj = rnd.choice([0.1, 0.2, 0.35]) if mode in ("object", "both") else 0.0
     pname = rnd.choice([0.1, 0.15, 0.3]) if mode in ("name", "both") else 0.0
@@ -76,7 +81,7 @@ def gen_filter(rnd, A, B):
                 for cmp_ in (False, True):
                     obj.append([list(r), refl, cmp_, rnd.random() >= pobj])
     # unnamed foreign keys can only be told apart by (type_, parent table): reject them more often
-    name = [[list(r), rnd.random() >= (max(pname, 0.4) if (r[0] == "g" and pname > 0) else pname)] for r in refs]
+    name = [[list(r), rnd.random() >= (max(pname, 0.4) if (r[0] in ("g", "v") and pname > 0) else pname)] for r in refs]
     if mode != "object" and rnd.random() < 0.03:
         name.append([["s"], False])
     rnd.shuffle(obj)
@@ -96,7 +101,7 @@ def gen_filter(rnd, A, B):
                 rules.append([k, rnd.choice(tabs)])
             else:
                 rules.append([k])
-    return {"obj": obj, "obj_d": obj_d, "name": name, "name_d": name_d, "rules": rules}
+    return {"obj": obj, "obj_d": obj_d, "name": name, "name_d": name_d, "rules": rules, "attached": list(attached)}
 
 
 def _cases(rnd, n):
@@ -131,7 +136,54 @@ def _cases(rnd, n):
                         if rnd.random() < 0.5:
                             while len(fk) < 6: fk.append([None, None, None, None] if len(fk) == 4 else True)
                             fk[5] = False
-        yield {"A": A, "B": B, "f": gen_filter(rnd, A, B)}
+        if rnd.random() < 0.3:          # CHECK constraints / expression indexes (outside the model, never filtered, never compared)
+            import copy
+            A, B = copy.deepcopy(A), copy.deepcopy(B)
+            S.decorate(rnd, A); S.decorate(rnd, B)
+        if rnd.random() < 0.35:         # unnamed unique constraints (reflected with name None; matched by column signature)
+            import copy
+            A, B = copy.deepcopy(A), copy.deepcopy(B)
+            for Sx in (A, B):
+                for t in Sx:
+                    t["uuqs"] = []
+            tb = {t["name"]: t for t in B}
+            for t in A:
+                for side in ([t, tb.get(t["name"])] if rnd.random() < 0.6 else [rnd.choice([t, tb.get(t["name"])])]):
+                    if side is None or rnd.random() < 0.4: continue
+                    names = [c[0] for c in side["cols"] if not (c[5] is not None and c[5][0] == "comp")]
+                    cs = sorted(rnd.sample(names, rnd.randint(1, min(2, len(names)))))
+                    taken = [frozenset(k[2]) for k in side["cons"]] + [frozenset(u[1]) for u in side["uuqs"]]
+                    if frozenset(cs) in taken and rnd.random() < 0.7: continue      # sometimes keep: the named constraint of the other side's signature
+                    if frozenset(cs) in taken: continue
+                    side["uuqs"].append([900 + len(side["uuqs"]), cs])
+            # the skip rule: an unnamed metadata constraint with the signature of a NAMED reflected one
+            for t in A:
+                m = tb.get(t["name"])
+                uqs = [k for k in t["cons"] if k[0] == "uq"]
+                if m is not None and uqs and rnd.random() < 0.3:
+                    k = rnd.choice(uqs)
+                    if all(frozenset(x[2]) != frozenset(k[2]) for x in m["cons"]) and all(frozenset(u[1]) != frozenset(k[2]) for u in m["uuqs"]) \
+                            and set(k[2]) <= {c[0] for c in m["cols"]}:
+                        m["uuqs"].append([950, sorted(k[2])])
+        attached = []
+        if rnd.random() < 0.35:         # ATTACHed databases seen as schemas (include_schemas=True): table code = 100 * schema + name
+            import copy
+            A, B = copy.deepcopy(A), copy.deepcopy(B)
+            attached = rnd.choice([[1], [1, 2], [1, 2]])
+            for i in attached:
+                for _ in range(rnd.choice([0, 1, 1, 2])):
+                    code = 100 * i + rnd.randrange(4)
+                    if any(t["name"] == code for t in A + B): continue
+                    t = S.gen_table(rnd, code, code * 10)
+                    for c in t["cols"]: c[5] = None if (c[5] is not None and c[5][0] == "expr") else c[5]
+                    where = rnd.choice(["A", "B", "AB", "AB"])
+                    if "A" in where: A.append(copy.deepcopy(t))
+                    if "B" in where:
+                        t2 = copy.deepcopy(t)
+                        if where == "AB" and rnd.random() < 0.6:
+                            t2["cols"].append([9, 0, [], True, False, None])
+                        B.append(t2)
+        yield {"A": A, "B": B, "f": gen_filter(rnd, A, B, attached)}
 
 
 def generate(tier, seed):
@@ -149,13 +201,16 @@ def q_ref(r):
     if k == "s": return "NSchema"
     if k == "t": return "(NTable %d)" % r[1]
     if k == "g": return "(NFkU %d)" % r[1]
+    if k == "S": return "(NSchemaN %d)" % r[1]
+    if k == "v": return "(NUqU %d)" % r[1]
     return "(%s %d %d)" % ({"c": "NColumn", "u": "NUq", "i": "NIx", "f": "NFk"}[k], r[1], r[2])
 
 
 def q_filter(f):
     obj = cf.lst("((%s, %s, %s), %s)" % (q_ref(r), cf.boolean(a), cf.boolean(b), cf.boolean(v)) for r, a, b, v in f["obj"])
     name = cf.lst("(%s, %s)" % (q_ref(r), cf.boolean(v)) for r, v in f["name"])
-    return "(mkFilt %s %s %s %s %s)" % (obj, cf.boolean(f["obj_d"]), name, cf.boolean(f["name_d"]), cf.lst(q_rule(r) for r in f.get("rules", [])))
+    return "(mkFilt %s %s %s %s %s %s)" % (obj, cf.boolean(f["obj_d"]), name, cf.boolean(f["name_d"]), cf.lst(q_rule(r) for r in f.get("rules", [])),
+                                        cf.nlist(f.get("attached", [])))
 
 
 def q_rule(r):
@@ -176,7 +231,9 @@ def digest(obj, type_):
     from sqlalchemy.dialects import sqlite
     if obj is None: return []
     if type_ == "table":
-        return [S.un(c.name, "c") for c in obj.c] + [len(obj.indexes), len(obj.foreign_key_constraints)]
+        from alembic.util import sqla_compat
+        plain_ix = [i for i in obj.indexes if not sqla_compat.is_expression_index(i)]      # expression indexes are decoration
+        return [S.un(c.name, "c") for c in obj.c] + [len(plain_ix), len(obj.foreign_key_constraints)]
     if type_ == "column":
         return [S.abs_type(obj.type, sqlite.dialect())[0], 1 if obj.nullable else 0]
     if type_ in ("index", "unique_constraint"):
@@ -191,7 +248,7 @@ def rule_rejects(r, obj, type_, reflected, compare_to):
     import sqlalchemy as sa
     k = r[0]
     if k == "tab_has_col": return type_ == "table" and S.cn(r[1]) in obj.c
-    if k == "refl_tab_has_ix": return bool(reflected) and type_ == "table" and len(obj.indexes) > 0
+    if k == "refl_tab_has_ix": return bool(reflected) and type_ == "table" and digest(obj, type_)[-2] > 0
     if k == "tab_has_fk": return type_ == "table" and len(obj.foreign_key_constraints) > 0
     if k == "col_fam": return type_ == "column" and digest(obj, type_)[0] == r[1]
     if k == "cons_on_col": return type_ in ("index", "unique_constraint") and r[1] in digest(obj, type_)
@@ -206,14 +263,14 @@ def make_filters(f, log):
 
     def oref(obj, name, type_):
         if type_ == "table":
-            return ("t", S.un(name, "t"))
-        tname = S.un(obj.table.name, "t")
+            return ("t", S.tcode(name, obj.schema))
+        tname = S.tcode(obj.table.name, obj.table.schema)
         if type_ == "column":
             return ("c", tname, S.un(name, "c"))
         if type_ == "index":
             return ("i", tname, S.un(name, "k"))
         if type_ == "unique_constraint":
-            return ("u", tname, S.un(name, "k"))
+            return ("v", tname) if name is None else ("u", tname, S.un(name, "k"))
         if type_ == "foreign_key_constraint":
             return ("g", tname) if name is None else ("f", tname, S.un(name, "f"))
         raise AssertionError("unexpected filter type %r" % (type_,))
@@ -228,14 +285,16 @@ def make_filters(f, log):
 
     def include_name(name, type_, parents):
         if type_ == "schema":
-            if name is not None: raise AssertionError("schema name")
-            r = ("s",)
+            if parents: raise AssertionError("parent names of a schema")
+            r = ("s",) if name is None else ("S", S.un(name, "s"))
         elif type_ == "table":
-            r = ("t", S.un(name, "t"))
+            want = name if not parents["schema_name"] else "%s.%s" % (parents["schema_name"], name)
+            if parents.get("schema_qualified_table_name") != want: raise AssertionError("schema_qualified_table_name")
+            r = ("t", S.tcode(name, parents["schema_name"]))
         else:
-            tname = S.un(parents["table_name"], "t")
-            if type_ == "foreign_key_constraint" and name is None:
-                r = ("g", tname)
+            tname = S.tcode(parents["table_name"], parents["schema_name"])
+            if type_ in ("foreign_key_constraint", "unique_constraint") and name is None:
+                r = ("g", tname) if type_ == "foreign_key_constraint" else ("v", tname)
                 log.append(["n", list(r)])
                 return ntab.get(r, f["name_d"])
             r = ({"column": "c", "index": "i", "unique_constraint": "u", "foreign_key_constraint": "f"}[type_], tname,
@@ -250,14 +309,14 @@ def run_case(h):
     S.quiet_logs()
     A, B, f = h["A"], h["B"], h["f"]
     mdB = S.build_metadata(B)
-    e = S.fresh_db(A)
+    e = S.fresh_db(A, f.get("attached", []))
     log = []
     try:
         with e.connect() as conn:
-            _, ms0 = S.compare(conn, mdB, (True, True))
+            _, ms0 = S.compare(conn, mdB, (True, True), include_schemas=True)
             plain = S.abs_ops(ms0.upgrade_ops, conn.dialect, A, B)
             io, iname = make_filters(f, log)
-            _, ms1 = S.compare(conn, S.build_metadata(B), (True, True), include_object=io, include_name=iname)
+            _, ms1 = S.compare(conn, S.build_metadata(B), (True, True), include_object=io, include_name=iname, include_schemas=True)
             filt = S.abs_ops(ms1.upgrade_ops, conn.dialect, A, B)
     finally:
         e.dispose()
